@@ -48,6 +48,9 @@ pub assume_specification [<u8 as From<bool>>::from](v: bool) -> (r: u8) ensures 
 pub struct ExFromUtf8Error(std::string::FromUtf8Error);
 pub assume_specification [std::string::String::from_utf8] (v: std::vec::Vec<u8>) -> (r: std::result::Result<std::string::String, std::string::FromUtf8Error>)
     ensures r is Ok <==> valid_utf8(v@), r matches Ok(s) ==> s@ == decode_utf8(v@);
+/// `String::len` is the length in bytes of the UTF-8 encoding (std documentation)
+pub assume_specification [std::string::String::len] (s: &std::string::String) -> (r: usize)
+    ensures r == encode_utf8(s@).len();
 
 
 // ------------------------------------------------------------------ fastnbt / serde_json (opaque)
@@ -146,6 +149,12 @@ pub open spec fn text_is_plain(s: Seq<char>) -> bool { !(s.len() > 0 && s[0] == 
 pub open spec fn enc_text(s: Seq<char>) -> Seq<u8> { seq![8u8] + (be16(encode_utf8(s).len() as u16) + encode_utf8(s)) }
 
 pub open spec fn str_ok(s: Seq<char>) -> bool { encode_utf8(s).len() <= 0x7fff_ffff }
+/// length of a string in UTF-16 code units, which is how the protocol states its string limits (`String (n)`)
+pub open spec fn utf16_units(s: Seq<char>) -> nat
+    decreases s.len()
+{ if s.len() == 0 { 0 } else { utf16_units(s.drop_last()) + (if s.last() as u32 >= 0x10000 { 2nat } else { 1nat }) } }
+/// a protocol string of at most `n` UTF-16 units
+pub open spec fn pstr_ok(s: Seq<char>, n: nat) -> bool { str_ok(s) && utf16_units(s) <= n }
 pub open spec fn bytes_ok(b: Seq<u8>) -> bool { b.len() <= 0x7fff_ffff }
 pub open spec fn text_ok(s: Seq<char>) -> bool { text_is_plain(s) && encode_utf8(s).len() <= 0xffff }
 
